@@ -113,9 +113,10 @@ def design_runs(pid, tier, seed, wd):
         if how in ("all", "inv"):
             # "inv": exhaustive, VIEW without history, no behaviours printed; -coverage: which actions were taken how often
             # (vacuity guard: an action never taken means its clauses were never exercised by this configuration)
-            # (TLC's coverage bookkeeping slows these runs by a factor of 40: thorough tier only, printing configurations only)
+            # (TLC's coverage bookkeeping slows these runs by a factor of 40 and more - progress.cfg did not finish in
+            # 25 minutes with it: only on request, VERIF_COVERAGE=1)
             rc, out, st = vlib.tlc("MCOmaha", path, workers=8, name="design.%s.%s" % (pid, cfg), timeout=3000,
-                                   extra=["-coverage", "1"] if tier == "thorough" and how == "all" else None)
+                                   extra=["-coverage", "1"] if os.environ.get("VERIF_COVERAGE") == "1" and how == "all" else None)
             acts = {}
             for m_ in re.finditer(r"<(\w+) line \d+, col \d+ to line \d+, col \d+ of module Omaha>: (\d+):(\d+)", out):
                 acts[m_.group(1)] = max(acts.get(m_.group(1), 0), int(m_.group(3)))
